@@ -232,7 +232,7 @@ def _sample(case):
 def plan(tier: str) -> list[dict]:
     if tier == "quick":
         return [{"n_max": 4, "examples": 24, "cost": 5} for _ in range(4)]
-    return [{"n_max": 4, "examples": 60, "cost": 10} for _ in range(13)] + [{"n_max": 5, "examples": 20, "cost": 12} for _ in range(3)]
+    return [{"n_max": 4, "examples": 300, "cost": 10} for _ in range(13)] + [{"n_max": 5, "examples": 60, "cost": 12} for _ in range(3)]
 
 
 def run_shard(spec: dict, ctx: Ctx) -> None:
